@@ -20,6 +20,7 @@ import sys
 
 from . import core
 from . import formula as F
+from . import values
 from .values import enc
 
 N = F.num
@@ -82,6 +83,14 @@ class Long(object):
         self.ev.append({'e': 'listen', 'p': 'p1', 'kind': 'cell', 'sets': self.env['cellsets']})
         self.ev.append({'e': 'listen', 'p': 'p1', 'kind': 'raises', 'sets': self.env['raises']})
 
+    def setvar(self, name, v):
+        self.h.p.set_variable(name, values.dec(v))
+        self.ev.append({'e': 'setvar', 'p': 'p1', 'name': name, 'v': v})
+
+    def setfn(self, name, c):
+        self.h.p.set_function(name, self.h.custom(name, c))
+        self.ev.append({'e': 'setfn', 'p': 'p1', 'name': name, 'c': c})
+
     def set_raises(self, tags):
         self.h.raises = set(tags)
         self.ev.append({'e': 'listen', 'p': 'p1', 'kind': 'raises', 'sets': list(tags)})
@@ -114,23 +123,43 @@ def solo_outcome(lib, f, debug, raises=(), cache={}):
     return cache[key]
 
 
+REBIND = {
+    # a binding changes between evaluations: later outcomes follow the new binding, nothing remembered from before
+    'rebindvar': lambda L, n: L.setvar('va', enc(3 + n)),
+    'rebindfn': lambda L, n: L.setfn('K', {'mode': 'const', 'v': enc(7 + n), 'i': 0}),
+    'shadow': lambda L, n: L.setfn('SUM', {'mode': 'const', 'v': enc(1000 + n), 'i': 0}),
+    'rebindtext': lambda L, n: L.setvar('vb', enc('qq%d' % n)),
+}
+
+
 def replay_history(lib, tid, kinds, debug):
     L = Long(lib, debug)
+    step = 0
+    rebound = False
     for k in kinds:
+        step += 1
+        if k in REBIND:
+            rebound = True
+            REBIND[k](L, step)
+            for f in (KIND['ok'], KIND['okcells'], PROBES[-3]):    # use the rebound name straight away
+                L.parse(f)
+            continue
         extra = TRANSIENT.get(k, [])
         if extra:      # a listener that fails this time only: the host's binding changes, then changes back
             L.set_raises(BASE_RAISES + extra)
-        L.parse(KIND[k], solo_outcome(lib, KIND[k], not debug, extra))
+        L.parse(KIND[k], None if rebound else solo_outcome(lib, KIND[k], not debug, extra))
         if extra:
             L.set_raises(BASE_RAISES)
     for f in PROBES:
-        L.parse(f, solo_outcome(lib, f, not debug))
+        # the fresh-parser oracle applies while the bindings are the initial ones; after a rebinding the
+        # evaluation is judged against XLEval for the bindings Trace_Hist carries
+        L.parse(f, None if rebound else solo_outcome(lib, f, not debug))
     return {'tid': tid, 'ev': L.ev, 'case': {'history': kinds, 'debug': debug}}
 
 
 # ------------------------------------------------------------------ host values
 
-HOSTLISTS = [[3, 1, 2], [[1, 2], [3, 4]], ['b', None, 'a', 2.5], [2, 2, 1], []]
+HOSTLISTS = [[3, 1, 2], [[1, 2], [3, 4]], ['b', None, 'a', 2.5], [2, 2, 1], [], [7], [[1, 2]]]
 SCALARS = [2, 'a', 1]
 
 
@@ -166,7 +195,7 @@ def host_obs(lib, names, rng, quick):
     modes = ['var', 'cell', 'range', 'fn']
     for name in names:
         for mode in modes if not quick else [modes[hash(name) % 4], 'var']:
-            for hi in range(len(HOSTLISTS)):
+            for hi in range(5):
                 one('%s(%s)' % (name, ref(mode, 1)), [HOSTLISTS[hi]], mode)
             for hi in (0, 1, 3):
                 for s in SCALARS:
@@ -179,10 +208,13 @@ def host_obs(lib, names, rng, quick):
     for mode in modes:
         a, b = ref(mode, 1), ref(mode, 2)
         for op in ['+', '-', '*', '/', '&', '=', '<', '<>']:
-            for hi in (0, 1, 2, 3):
+            for hi in (0, 1, 2, 3, 5, 6):
                 one('%s%s%s' % (a, op, b), [HOSTLISTS[hi], HOSTLISTS[3]], mode)
+                one('%s%s%s' % (b, op, a), [HOSTLISTS[hi], HOSTLISTS[3]], mode)
                 one('%s%s2' % (a, op), [HOSTLISTS[hi]], mode)
                 one('2%s%s' % (op, a), [HOSTLISTS[hi]], mode)
+                one('%s%s{1,2}' % (a, op), [HOSTLISTS[hi]], mode)
+                one('{1,2,3}%s%s' % (op, a), [HOSTLISTS[hi]], mode)
         for t in ['-%s', '{%s,1}', '{1;%s;%s}', 'PEEK(%s)', 'PEEK(%s,%s)', 'IF(1,%s,2)', 'SUM(PEEK(%s))+SUM(%s)',
                   'INDEX(%s,1)', 'LARGE(%s,1)', 'MEDIAN(%s)+MAX(%s)']:
             n = t.count('%s')
@@ -195,7 +227,20 @@ def host_obs(lib, names, rng, quick):
 def census():
     gc.collect()
     gc.collect()
-    return len(gc.get_objects())
+    return len(gc.get_objects()), sys.getallocatedblocks()
+
+
+DISTINCT = {      # a different formula on every evaluation: nothing may be kept per distinct text, name or operand
+    'text operand': lambda i: '"order %07d"+1' % i,
+    'date text': lambda i: 'YEAR("%04d-05-03")' % (1900 + i % 8000),
+    'cell label': lambda i: 'A%d+1' % (i + 1),
+    'unknown variable': lambda i: 'nosuch%d+1' % i,
+    'number': lambda i: '%d*2' % i,
+    'unknown function': lambda i: 'NOFN%d(1)' % i,
+    'string argument': lambda i: 'LEN("s%d")&UPPER("t%d")' % (i, i),
+    'range': lambda i: 'SUM(B%d:C%d)' % (i + 1, i + 2),
+    'syntax error': lambda i: '1+*%d' % i,
+}
 
 
 def census_obs(lib, quick):
@@ -215,8 +260,20 @@ def census_obs(lib, quick):
                         L.h.parse(text)
                         done += 1
                 series.append(census())
-            obs.append({'kind': 'census', 'formula': text, 'debug': debug, 'n': base, 'series': series,
-                        'in': {'kind': k, 'debug': debug}})
+            obs.append({'kind': 'census', 'formula': text, 'debug': debug, 'n': base, 'series': [x[0] for x in series],
+                        'blocks': [x[1] for x in series], 'in': {'kind': k, 'debug': debug}})
+    for k, gen in sorted(DISTINCT.items()):
+        L = Long(lib, False)
+        series = []
+        done = 0
+        for target in (base, 2 * base, 4 * base, 8 * base):
+            with quiet():
+                while done < target:
+                    L.h.parse(gen(done))
+                    done += 1
+            series.append(census())
+        obs.append({'kind': 'census', 'formula': gen(0) + ' ...', 'debug': False, 'n': base, 'series': [x[0] for x in series],
+                    'blocks': [x[1] for x in series], 'in': {'kind': 'distinct: ' + k, 'debug': False}})
     return obs
 
 
@@ -255,7 +312,10 @@ def main(tier, replay=None):
     traces = []
     for h in hists:
         traces.append(replay_history(lib, len(traces) + 1, h, bool(len(traces) % 2)))
-    kinds = sorted(KIND)
+        if len(traces) % 3 == 0:       # the same history with a rebinding after its first evaluation
+            h2 = [h[0], rng.choice(sorted(REBIND))] + list(h[1:])
+            traces.append(replay_history(lib, len(traces) + 1, h2, bool(len(traces) % 2)))
+    kinds = sorted(KIND) + sorted(REBIND)
     for _ in range(60 if quick else 1500):      # longer random histories
         h = [rng.choice(kinds) for _ in range(rng.randint(5, 30))]
         traces.append(replay_history(lib, len(traces) + 1, h, rng.random() < 0.5))
